@@ -120,6 +120,7 @@ class Interp:
         """Execute the real body of func with bound arguments `args`; returns value or raises PyRaise."""
         node, gl = self.reg.function_ast(func)
         frame = Frame(dict(args), gl, func=func, defcls=defcls, qual=self.reg.qualname(func))
+        frame.entry_old = Frame(dict(args), gl, func=func, defcls=defcls, qual=frame.qual)  # type: ignore[attr-defined]
         if _is_generator(node):
             return self._run_generator(node, frame)
         try:
